@@ -488,6 +488,29 @@ func main() {
 			g.add("unm " + hx.Hex([]byte(jc.text)))
 			g.add(fmt.Sprintf("doc %s %s corner", hx.Hex([]byte(jc.text)), hx.Hex([]byte(jc.want))))
 		}
+		// raw control characters, DEL and U+2028/2029 inside double-quoted literals without any
+		// backslash (string values and quoted keys): legal source, must come out as valid JSON
+		var ctl []string
+		for c := 1; c < 0x20; c++ {
+			if c != '\n' {
+				ctl = append(ctl, string(rune(c)))
+			}
+		}
+		ctl = append(ctl, "\x7f", "\u2028", "\u2029", "\u0085", "\t\r\x1b", "a\tb", "\x00")
+		for _, cc := range ctl {
+			js, _ := json.Marshal(cc)
+			jk, _ := json.Marshal("k" + cc)
+			for _, d := range []struct{ text, want string }{
+				{"\"" + cc + "\"", string(js)},
+				{"{\"k" + cc + "\": 1}", "{" + string(jk) + ":1}"},
+				{"[\"" + cc + "\", {\"k" + cc + "\": \"" + cc + "\"}]", "[" + string(js) + ",{" + string(jk) + ":" + string(js) + "}]"},
+			} {
+				g.add("tojson " + hx.Hex([]byte(d.text)))
+				g.add("unm " + hx.Hex([]byte(d.text)))
+				g.add(fmt.Sprintf("doc %s %s string-verbatim-control", hx.Hex([]byte(d.text)), hx.Hex([]byte(d.want))))
+				rep.Count("verbatim-control-corner")
+			}
+		}
 		// keywords are not identifiers: as bare keys they must be rejected, never converted
 		for _, t := range []struct{ text, want string }{
 			{"{true: 1}", `{"true":1}`}, {"{false: 1}", `{"false":1}`}, {"{null: 0}", `{"null":0}`},
